@@ -18,12 +18,12 @@ package socks5
 
 //@ func WriteAddrFromAddrPort
 //@   requires len(b) >= LengthOfAddrFromAddrPort(addrPort)
-//@   modifies b[0:len(b)]
+//@   modifies b[0:LengthOfAddrFromAddrPort(addrPort)]
 //@   ensures n == LengthOfAddrFromAddrPort(addrPort)
 
 //@ func WriteAddrFromConnAddr
 //@   requires conn.AddrWF(addr) && len(b) >= LengthOfAddrFromConnAddr(addr)
-//@   modifies b[0:len(b)]
+//@   modifies b[0:LengthOfAddrFromConnAddr(addr)]
 //@   ensures result == LengthOfAddrFromConnAddr(addr)
 
 //@ func AppendAddrFromConnAddr
@@ -32,11 +32,13 @@ package socks5
 //@ func AddrPortFromSlice
 //@   modifies nothing
 //@   ensures isnil(result2) ==> (result1 == 7 || result1 == 19) && result1 <= len(b)
+//@   ensures isnil(result2) ==> result1 >= LengthOfAddrFromAddrPort(result0)
 //@   ensures !isnil(result2) ==> result1 == 0
 
 //@ func ConnAddrFromSlice
 //@   modifies nothing
 //@   ensures isnil(result2) ==> conn.AddrWF(result0) && result0.IsValid() && result1 >= 5 && result1 <= 259 && result1 <= len(b)
+//@   ensures isnil(result2) ==> result1 >= LengthOfAddrFromConnAddr(result0)
 
 //@ func clientDoRequest
 //@   requires len(b) >= 3 + MaxAddrLen && conn.AddrWF(targetAddr)
@@ -50,6 +52,7 @@ package socks5
 //@ func (*DomainCache).ConnAddrFromSlice
 //@   requires dcWF(c)
 //@   ensures isnil(result2) ==> conn.AddrWF(result0) && result0.IsValid() && result1 >= 5 && result1 <= 259 && result1 <= len(b)
+//@   ensures isnil(result2) ==> result1 >= LengthOfAddrFromConnAddr(result0)
 
 // Documented buffer-size preconditions (callers allocate fixed-size scratch buffers).
 
